@@ -5,15 +5,15 @@
  "bound": "generated test modules through Example.run_inline: C01 value trees depth<=2 (quick)/3 (thorough), width<=3, 6 operations x 4 placements + multi-value snapshots, flags=create; C02 (odd old text, new value) pairs depth<=2/3 incl. two-snapshot bodies, flags=create,fix; oracle = rewritten module compiles and re-runs green with snapshot := identity",
  "input": {
   "prop": "C02",
-  "old": "[str(\"it's\"), 'x\\ny']",
-  "new": "[\"it's\", 'x\\ny', 'c d']",
+  "old": "[ 1 , ( 1 , ' pad ' , 'c d' ) ]",
+  "new": "[(1, ' pad ', 'c d')]",
   "op": "eq",
   "shape": "create_then_fix",
   "placement": "assert",
-  "old2": "[\n        2,  # c0\n        'x\\ny',  # c1\n    ]",
-  "new2": "[2, 'x\\ny', 2, 'x\\ny']"
+  "old2": "NT(  a = 'x\\ny' , b = str('x\\ny') )",
+  "new2": "NT(a=None, b='x\\ny')"
  },
- "detail": "a test raised during the create,fix run: RuntimeError:\ngenerator raised StopIteration\nsource:\ndef test_a():\n    v1 = [\"it's\", 'x\\ny', 'c d']\n    v2 = [2, 'x\\ny', 2, 'x\\ny']\n    assert v1 == snapshot()\n    assert v2 == snapshot([\n        2,  # c0\n        'x\\ny',  # c1\n    ])\n\nrewritten:\ndef test_a():\n    v1 = [\"it's\", 'x\\ny', 'c d']\n    v2 = [2, 'x\\ny', 2, 'x\\ny']\n    assert v1 == snapshot([\n    \"it's\",\n    \"\"\"\\\nx\ny\\\n\"\"\",\n    \"c d\",\n])\n    assert v2 == snapshot([\n        2,  # c0\n        'x\\ny',  # c1\n    ])\n"
+ "detail": "a test raised during the create,fix run: TypeError:\nNT.__new__() missing 1 required positional argument: 'a'\nsource:\ndef test_a():\n    v1 = [(1, ' pad ', 'c d')]\n    v2 = NT(a=None, b='x\\ny')\n    assert v1 == snapshot()\n    assert v2 == snapshot(NT(  a = 'x\\ny' , b = str('x\\ny') ))\n\nrewritten:\ndef test_a():\n    v1 = [(1, ' pad ', 'c d')]\n    v2 = NT(a=None, b='x\\ny')\n    assert v1 == snapshot([(1, \" pad \", \"c d\")])\n    assert v2 == snapshot(NT(  a = 'x\\ny' , b = str('x\\ny') ))\n"
 }
 """
 
@@ -65,7 +65,7 @@ def rerun_identity(src):
     finally:
         inline_snapshot.snapshot = real
 
-SRC = 'from inline_snapshot import snapshot\n\n\n# ---- case ----\ndef test_a():\n    v1 = ["it\'s", \'x\\ny\', \'c d\']\n    v2 = [2, \'x\\ny\', 2, \'x\\ny\']\n    assert v1 == snapshot()\n    assert v2 == snapshot([\n        2,  # c0\n        \'x\\ny\',  # c1\n    ])\n'
+SRC = 'from inline_snapshot import snapshot\nfrom collections import namedtuple\n\n\nNT = namedtuple("NT", "a b")\n\n\n# ---- case ----\ndef test_a():\n    v1 = [(1, \' pad \', \'c d\')]\n    v2 = NT(a=None, b=\'x\\ny\')\n    assert v1 == snapshot()\n    assert v2 == snapshot(NT(  a = \'x\\ny\' , b = str(\'x\\ny\') ))\n'
 FLAGS = 'create,fix'
 after, raised = run_inline({'test_something.py': SRC}, FLAGS, cwd_files={})
 new = after['test_something.py']
